@@ -214,7 +214,8 @@ func (c C16Case) build(withFault bool) cli.Tree {
 				}
 				sb.WriteString(fmt.Sprintf("%sSecRule ARGS \"%s old-%s-%d\" \\\n", ind, o, id, k))
 				if k == 0 {
-					sb.WriteString(fmt.Sprintf("%s    \"id:%s,\\\n%s    phase:2,\\\n", ind, id, ind))
+					// texts that merely mention the chain action: a message and a tag
+					sb.WriteString(fmt.Sprintf("%s    \"id:%s,\\\n%s    phase:2,\\\n%s    msg:'Possible attack chain detected',\\\n%s    tag:'attack-chain',\\\n", ind, id, ind, ind, ind))
 				} else {
 					sb.WriteString(ind + "    \"")
 				}
